@@ -210,5 +210,55 @@ func propTable() map[string]PropSpec {
 		Outside:     "sections longer than listed on the input side (the CRC check is one length-generic loop); NIT sections with arbitrary bytes (two nested symbolic loop lengths: >10^5 paths at the minimal size; the CRC code path is the same as for the other table ids); Muxer-level emission is asserted in the Muxer harnesses",
 		Assumptions: []string{"feasibility of 'CRC matches' branches over many symbolic bytes is found by model repair + evaluation (or left unknown: both sides explored); the proof obligation itself is discharged syntactically (the goal is the branch condition the library has just tested) or by the solver"},
 	}
+	mux := func(thorough bool, prefixes []string) []TaskSpec {
+		var wd, hist, step, script [][]int64
+		hdrs := []int64{0, 2}
+		if thorough {
+			hdrs = []int64{0, 1, 2}
+		}
+		for af := int64(0); af <= 3; af++ {
+			for _, h := range hdrs {
+				for l := int64(0); l < 18; l++ {
+					for prior := int64(0); prior <= 1; prior++ {
+						wd = append(wd, []int64{af, h, l, prior})
+					}
+				}
+			}
+		}
+		hist = [][]int64{{2, 1}, {3, 2}}
+		lvl := int64(0)
+		maxK := int64(2)
+		if thorough {
+			hist = append(hist, []int64{3, 1}, []int64{4, 1}, []int64{4, 3})
+			lvl, maxK = 1, 3
+		}
+		for op := int64(0); op <= 7; op++ {
+			for k := int64(0); k <= maxK; k++ {
+				for _, p := range []int64{1, 3} {
+					step = append(step, []int64{op, k, p, lvl})
+				}
+			}
+		}
+		for _, sc := range []int64{1465646, 1475747, 12479317, 14787, 124797967, 1247379, 146146, 1456757} {
+			script = append(script, []int64{sc, 2}, []int64{sc, 1})
+		}
+		return []TaskSpec{
+			{Harness: "HarnessMuxWriteData", ArgSets: wd, Reach: []string{"mux.writedata.end"}, Asserts: prefixes},
+			{Harness: "HarnessMuxHistory", ArgSets: hist, Reach: []string{"mux.history.end"}, Asserts: prefixes},
+			{Harness: "HarnessMuxStep", ArgSets: step, Reach: []string{"mux.step.end"}, Asserts: prefixes},
+			{Harness: "HarnessMuxScript", ArgSets: script, Reach: []string{"mux.script.end"}, Asserts: prefixes},
+			{Harness: "HarnessMuxWrap", Reach: []string{"mux.wrap.end"}, Asserts: prefixes},
+		}
+	}
+	muxBounds := map[string]string{
+		"quick":    "one inductive step from an arbitrary valid Muxer state (0..2 streams; every counter, version, dirty flag and the retransmit counter symbolic under the stated invariant; retransmit period 1 and 3) for each of the 8 operations with symbolic arguments, invariant re-checked after the step; all operation histories of length <= 3 from NewMuxer over {Add explicit/auto, Remove, SetPCRPID, WriteTables, WriteData (2 PIDs, with/without AF, 1 or 190 payload bytes), WriteData with an oversized AF, WritePacket 184/185 bytes}; 8 scripted histories of 5-9 operations around failed table emissions and remove/re-add; WriteData with first-packet AF {none, PCR+RAI, private data+RAI, 175-byte private data} x timestamps {none, PTS+DTS} x 18 payload lengths around the 184-byte boundaries (1..372) x {first call, later call}, symbolic PID/stream type/payload/timestamps/PCR; 18 units and 34 content changes for counter/version wrap-around; every output is also demultiplexed by the real Demuxer (C01)",
+		"thorough": "states with up to 3 streams, all WriteData variants in the step, histories of length 4, timestamps {none, PTS, PTS+DTS}",
+	}
+	muxOutside := "more than 3 streams; ES/program descriptors in the PMT (the PMT-larger-than-one-packet rejection is not exercised); payloads longer than 372 bytes including PES_packet_length > 65535 (writePESHeader's length rule is covered for all sizes in C12); histories longer than 4 other than through the inductive step and the scripts"
+	muxAssume := []string{"the inductive step assumes the representation invariant stated in harness/h_mux.go (vMuxState) and re-establishes it; the base case is the histories from NewMuxer", "PIDs are concrete in histories and steps (they matter only through equality) and symbolic in the WriteData harness"}
+	t["C04"] = PropSpec{ID: "C04", Quick: mux(false, []string{"C04."}), Thorough: mux(true, []string{"C04."}), Bounds: muxBounds, Outside: muxOutside, Assumptions: muxAssume}
+	t["C05"] = PropSpec{ID: "C05", Quick: mux(false, []string{"C05."}), Thorough: mux(true, []string{"C05."}), Bounds: muxBounds, Outside: muxOutside, Assumptions: muxAssume}
+	t["C17"] = PropSpec{ID: "C17", Quick: mux(false, []string{"C17."}), Thorough: mux(true, []string{"C17."}), Bounds: muxBounds, Outside: muxOutside, Assumptions: muxAssume}
+	t["C01"] = PropSpec{ID: "C01", Quick: mux(false, []string{"C01.", "C12.data"}), Thorough: mux(true, []string{"C01.", "C12.data"}), Bounds: muxBounds, Outside: muxOutside, Assumptions: muxAssume}
 	return t
 }
